@@ -3,7 +3,7 @@
    specification (Spec.v: the denotation of the PLAIN composite the recipe describes) on the implementation's answer.
    Must not import Proofs/Props. *)
 From Coq Require Import List ZArith QArith Qabs Bool.
-Require Import QV.common.Util QV.C08.Model QV.C08.Spec QV.C08.Hist.
+Require Import QV.common.Util QV.C08.Model QV.C08.Spec QV.C08.Hist QV.C08.Guards.
 Import ListNotations.
 Open Scope Q_scope.
 
@@ -97,7 +97,18 @@ Definition check_corr (k : case) : bool :=
   | CCrash => false
   end.
 
-(* ---- the specification oracle ---- *)
+(* ---- the specification oracle ----
+   Independence (round 5 audit; checked by a dependency scan of the definitions): [check_spec] reaches, besides Spec.v
+   ([build_plain], [den] = [sc] after [nf], [table_at], [t_mirror]), only these definitions of Model.v, all of them the
+   MEANING of the data a plain composite consists of, none of them a part of the operational model of the code:
+     types and finite-set / rational helpers   wf, trafo, recipe, entry, res, inb, lookup, keys, set_eqb, subsetb, unionb,
+                                               diffb, interb, disjointb, dedup, Qltb, omap, omap2, osum, dot, last_t
+     structure of a plain composite            channels, duration, overlap_free
+     value of a leaf / operator at one time    interp_at, poly_at, aop_at, aop_rhs_only, functor_at, tval_at
+     a transformation applied to one data row  t_point, t_out (via channels), t_in (via t_out of chains)
+     "not a waveform" (0-length linear segment) zdiv, table_zdiv
+   It does NOT reach sample_vec, get_sampled, cv / cvd, build and the from_* constructors, get_subset, kerr, wf_eqb or
+   Hist.v.  [check_excused] below does (on purpose: it contains check_corr) and is never used to accept an observation. *)
 Fixpoint forallb2 {A B} (f : A -> B -> bool) (a : list A) (b : list B) : bool :=
   match a, b with [] , [] => true | x :: a', y :: b' => f x y && forallb2 f a' b' | _, _ => false end.
 Definition in_range (w : wf) (grid : list Q) : bool :=
@@ -175,3 +186,62 @@ Definition check_spec (k : case) : bool :=
       end
   | CCrash => false
   end.
+
+(* ---- known findings (round 5): is an observation that [check_spec] rejects EXACTLY a known defect of the unchanged code?
+   Used by the harness (`classify`) only AFTER check_spec has failed, to decide between KNOWN-FINDING and VIOLATION; it never
+   makes check_spec / check_corr pass.  A rejected observation is filed under a known finding only if
+     (1) the implementation behaves exactly like the model of the unchanged code on this case ([check_corr]: the refuted
+         theorems are about this model; a changed implementation is never excused), and
+     (2) the specification accepts every answer outside the points the finding is about:
+           - a NaN at t = duration                                   (C08-nan-at-duration; guard t < duration of the theorems)
+           - a time the junction guard [badT] of C08_denotation_any_reversal_T / C08_mirror_law_T excludes
+                                                                     (C08-reversed-composite-junction)
+           - KeyError for a channel with [kerr wp c] on the plain composite   (C08-chain-parallel-linear-keyerror)
+           - [q]: any time on the 1/4 grid (C08-table-dedup-final-triple: the harness asks for this mask only for recipes
+             with a from_table table whose last three entries share one time)
+   The cache findings (stale after in-place times, shadowed by-product) and the missing hash concern whole answers: the
+   harness uses [check_corr] alone for them. *)
+Definition on_quarter (t : Q) : bool := Z.eqb (Zpos (Qden (Qred (t * 4)))) 1.
+Definition exc_sample (q : bool) (wp : wf) (c : chan) (t : Q) (v : option Q) : bool :=
+  (match v with
+   | Some _ => oQeqb v (den wp c t)
+   | None => Qeq_bool t (duration wp)
+   end) || badT false wp c t || (q && on_quarter t).
+Definition exc_sres (q : bool) (wp : wf) (c : chan) (grid : list Q) (a : sres) : bool :=
+  match a with
+  | SOK vals => forallb2 (exc_sample q wp c) grid vals
+  | SErr EKey => kerr wp c
+  | SErr _ => false
+  end.
+Definition exc_chan (q : bool) (wp : wf) (grid : list Q) (o : chobs) : bool :=
+  let c := co_c o in
+  if negb (inb c (channels wp)) then true
+  else if zdiv wp c then true
+  else
+    (match co_cv o with
+     | Some v => forallb (fun t => oQeqb (den wp c t) (Some v) || badT false wp c t || (q && on_quarter t)) grid
+     | None => true
+     end)
+    && exc_sres q wp c grid (co_gs o).
+Definition exc_answer (q : bool) (wp : wf) (ca : call) (a : sres) : bool :=
+  if negb (inb (ca_c ca) (channels wp)) || negb (sortedb (ca_ts ca)) || negb (in_range wp (ca_ts ca)) || zdiv wp (ca_c ca)
+  then true
+  else exc_sres q wp (ca_c ca) (ca_ts ca) a.
+Definition excused (q : bool) (k : case) : bool :=
+  check_corr k &&
+  match k with
+  | CSample r grid (OBuilt chs dur per) =>
+      match build_plain r with
+      | Err _ => false
+      | OK wp => set_eqb chs (channels wp) && Qeq_bool dur (duration wp)
+                 && (if sortedb grid && in_range wp grid then forallb (exc_chan q wp grid) per else true)
+      end
+  | CHist r calls answers =>
+      match build_plain r with
+      | Err _ => false
+      | OK wp => forallb2 (exc_answer q wp) calls answers
+      end
+  | _ => false
+  end.
+Definition check_excused (k : case) : bool := excused false k.
+Definition check_excused_q (k : case) : bool := excused true k.
